@@ -44,7 +44,7 @@ def tables():
         shutil.rmtree(base, ignore_errors=True)
 
     sites = walk_sites()
-    return walk_rows(sites) + [
+    return walk_rows(sites) + resolve_rows() + [
         f"def deriveAbsCached : Bool := {lbool(cached)}",
         f"def deriveAbsCacheKey : List String := {llist(params)}",
         f"def deriveAbsReadsCurrentFile : Bool := {lbool(reads_current_file)}",
@@ -122,4 +122,102 @@ def walk_rows(sites):
         f"def compileSites : List (String × Bool) := {llist(sites['compile'], pair)}",
         f"def enterFileRestoresOnException : Bool := {lbool(sites['finally'])}",
         f"def relVisitorsReadCurrentFileOnly : Bool := {lbool(sites['readers'])}",
+    ]
+
+
+def resolve_rows():
+    """Where `.resolve()` is applied on the way from a module name to the file that is entered.
+
+    Static: the resolving calls inside `find_module_in_path` (receiver text), what it returns, the
+    resolving calls inside `Import.origin`, and the argument of every `with enter_file(...)`.
+    Dynamic: `find_module_in_path` on a directory with a symlinked package, a symlinked module file and
+    through a symlinked spelling of the search directory; the results with the resolved search directory
+    written `<R>`, the directory the links point into `<X>`."""
+    import ast
+    import inspect
+    import os
+    import shutil
+    import tempfile
+    import textwrap
+    from pathlib import Path
+
+    import rattr
+    from rattr.models.symbol._symbols import Import
+    from rattr.module_locator import _locate as L
+
+    RESOLVERS = ("resolve", "absolute", "realpath", "readlink", "abspath")
+
+    def resolving_calls(fn_node):
+        out = []
+        for n in ast.walk(fn_node):
+            if isinstance(n, ast.Call):
+                f = n.func
+                if isinstance(f, ast.Attribute) and f.attr in RESOLVERS:
+                    out.append(ast.unparse(f.value) + "." + f.attr)
+                elif isinstance(f, ast.Name) and f.id in RESOLVERS:
+                    out.append(f.id)
+        return sorted(out)
+
+    fn = ast.parse(textwrap.dedent(inspect.getsource(L.find_module_in_path))).body[0]
+    find_calls = resolving_calls(fn)
+    find_returns = sorted(ast.unparse(n.value) if n.value is not None else "None"
+                          for n in ast.walk(fn) if isinstance(n, ast.Return))
+    origin_fn = ast.parse(textwrap.dedent(inspect.getsource(Import.origin.fget))).body[0]
+    origin_calls = resolving_calls(origin_fn)
+
+    root = Path(rattr.__file__).resolve().parent
+    enter_args = []
+    for f in sorted(root.rglob("*.py")):
+        rel = "rattr/" + str(f.relative_to(root))
+        try:
+            tree = ast.parse(f.read_text())
+        except SyntaxError:
+            continue
+        for fnode in ast.walk(tree):
+            if not isinstance(fnode, (ast.FunctionDef, ast.AsyncFunctionDef)):
+                continue
+            for n in ast.walk(fnode):
+                if isinstance(n, (ast.With, ast.AsyncWith)):
+                    for i in n.items:
+                        c = i.context_expr
+                        if isinstance(c, ast.Call) and getattr(c.func, "id", getattr(c.func, "attr", None)) == "enter_file":
+                            enter_args.append((f"{rel}::{fnode.name}", ", ".join(ast.unparse(a) for a in c.args)))
+    enter_args = sorted(set(enter_args))
+
+    base = Path(os.path.realpath(tempfile.mkdtemp(prefix="c13lnk")))
+    try:
+        r, x = base / "r", base / "x"
+        (x / "real").mkdir(parents=True)
+        r.mkdir()
+        (x / "real" / "__init__.py").write_text("")
+        (x / "real" / "mod.py").write_text("")
+        (x / "other.py").write_text("")
+        (r / "mod.py").write_text("")
+        os.symlink("../x/real", r / "lnk", target_is_directory=True)
+        os.symlink("../x/other.py", r / "lmod.py")
+        os.symlink("r", base / "l", target_is_directory=True)
+
+        def show(p):
+            if p is None:
+                return ["-"]
+            t = str(p)
+            for d, tag in ((str(r), "<R>"), (str(x), "<X>"), (str(base / "l"), "<L>")):
+                if t == d or t.startswith(d + os.sep):
+                    return [tag] + [q for q in t[len(d):].split(os.sep) if q]
+            return ["?", t]
+
+        probe = [(f"{label}:{name}", show(L.find_module_in_path(d, name)))
+                 for label, d in (("R", r), ("L", base / "l"))
+                 for name in ("lnk", "lnk.mod", "lmod", "mod")]
+    finally:
+        shutil.rmtree(base, ignore_errors=True)
+
+    pair = lambda p: "(" + lstr(p[0]) + ", " + lstr(p[1]) + ")"
+    prow = lambda p: "(" + lstr(p[0]) + ", " + llist(p[1]) + ")"
+    return [
+        f"def findResolvingCalls : List String := {llist(find_calls)}",
+        f"def findReturns : List String := {llist(find_returns)}",
+        f"def importOriginResolvingCalls : List String := {llist(origin_calls)}",
+        f"def enterFileArgs : List (String × String) := {llist(enter_args, pair)}",
+        f"def symlinkProbe : List (String × List String) := {llist(probe, prow)}",
     ]
